@@ -378,7 +378,21 @@ pub fn rand_password(rng: &mut Rng, r: u32) -> Vec<u8> {
     }
 }
 
+/// deliberate damage to the encryption dictionary (regression witnesses of D18)
+#[derive(Clone, Copy, Debug, PartialEq)]
+pub enum Tweak {
+    /// `/Length 0` (and no crypt filter length): a key of zero bytes
+    LengthZero,
+    /// `/Length 4` with V 4: below one byte
+    LengthFour,
+    /// `/UE <>`
+    EmptyUE,
+    /// `/UE` and `/OE` of 16 bytes
+    ShortUEOE,
+}
+
 pub struct DocOptions {
+    pub tweak: Option<Tweak>,
     pub variant: Variant,
     pub encrypt_metadata: bool,
     /// the encryption dictionary as an indirect object (false: direct in the trailer)
@@ -391,7 +405,7 @@ pub struct DocOptions {
 pub fn rand_options(rng: &mut Rng) -> DocOptions {
     let variant = pick_variant(rng);
     let encrypt_metadata = if variant.v >= 4 { rng.chance(1, 2) } else { true };
-    DocOptions { variant, encrypt_metadata, indirect_encrypt: true, xref_stream: rng.chance(1, 2), with_metadata: rng.chance(3, 4), with_objstm: rng.chance(1, 2) }
+    DocOptions { tweak: None, variant, encrypt_metadata, indirect_encrypt: !rng.chance(1, 5), xref_stream: rng.chance(1, 2), with_metadata: rng.chance(3, 4), with_objstm: rng.chance(1, 2) }
 }
 
 fn rand_ids(rng: &mut Rng, k: usize, from: u64) -> Vec<(u64, u64)> {
@@ -484,7 +498,23 @@ pub fn build(rng: &mut Rng, opt: &DocOptions, user_pw: &[u8], owner_pw: &[u8]) -
     }
 
     // the encryption dictionary (plaintext strings, never encrypted)
-    let (fields, desc_len) = dict_fields(rng, &var, &entries, p, opt.encrypt_metadata);
+    let (mut fields, desc_len) = dict_fields(rng, &var, &entries, p, opt.encrypt_metadata);
+    match opt.tweak {
+        None => {}
+        Some(Tweak::LengthZero) => {
+            fields.bits = Some(0);
+            for cf in fields.cf.iter_mut() { cf.2 = None; }
+        }
+        Some(Tweak::LengthFour) => {
+            fields.bits = Some(4);
+            for cf in fields.cf.iter_mut() { cf.2 = None; }
+        }
+        Some(Tweak::EmptyUE) => fields.ue = Some(vec![]),
+        Some(Tweak::ShortUEOE) => {
+            fields.ue = fields.ue.map(|x| x[..16].to_vec());
+            fields.oe = fields.oe.map(|x| x[..16].to_vec());
+        }
+    }
     let encrypt_pv = fields.to_pv();
     if opt.indirect_encrypt {
         objects.push(Obj { id: 6, gen: 0, body: Body::Value(encrypt_pv.clone()), compressed: false, role: 1 });
@@ -599,8 +629,9 @@ pub fn build(rng: &mut Rng, opt: &DocOptions, user_pw: &[u8], owner_pw: &[u8]) -
     let fmt = if opt.xref_stream { XrefFormat::Stream } else { XrefFormat::Classic };
     w.finish(fmt, max_id + 1, &trailer, &[], 9);
     let desc = format!(
-        "{} n={} {} encryptMetadata={} {} objstm={} metadata={} upw={} opw={}",
-        var.name, var.n, desc_len, opt.encrypt_metadata, if opt.xref_stream { "xrefstream" } else { "classic" }, use_objstm, with_meta, user_pw.len(), owner_pw.len()
+        "{} n={} {} encryptMetadata={} {} {} objstm={} metadata={} upw={} opw={}{}",
+        var.name, var.n, desc_len, opt.encrypt_metadata, if opt.xref_stream { "xrefstream" } else { "classic" }, if opt.indirect_encrypt { "encrypt=indirect" } else { "encrypt=direct" }, use_objstm, with_meta, user_pw.len(), owner_pw.len(),
+        opt.tweak.map(|t| format!(" tweak={:?}", t)).unwrap_or_default()
     );
     Doc {
         bytes: w.out.clone(),
